@@ -23,6 +23,9 @@ type scStart struct {
 	rb                  map[int]*rbScript   // C08: per vb scripted rollback
 	twinCand            map[int]journal.Off // C02 read-only: newer checkpoints a read-write twin may store
 	twinSaved, reopened bool
+	rb2Enabled          bool   // C08: a rollback on a re-open (stream end after a fail-over that lost the tail)
+	rb2State            string // "", armed, done
+	rb2Vb               int
 	fault               string // C15: the injected start-up fault
 	faultVb             int
 	faultN              int
@@ -128,6 +131,7 @@ func (s *scStart) Configure(w *World) {
 			c.Extra["c08filter"] = "1"
 		}
 		c.DcpMode = Pick(t, []string{"infinite", "finite"}, []int{4, 1})
+		s.rb2Enabled = t.Draw(3, nil) == 0 && c.DcpMode == "infinite"
 		c.ReadOnly = false
 		if backend == "custom" {
 			c.Extra["backend"], s.custom = "", nil
@@ -280,6 +284,37 @@ func (s *scStart) Configure(w *World) {
 			return nil
 		}
 		w.scriptSReq = func(cn *Conn, vb int, start uint64) (replyVariant, bool) {
+			if s.rb2State == "armed" && vb == s.rb2Vb {
+				// the re-open after a fail-over that lost the tail: the position the client asks for lies beyond the
+				// point where the new branch begins
+				s.rb2State = "done"
+				if start == 0 {
+					return replyVariant{}, false
+				}
+				r2 := start - uint64(w.tape.Draw(int(min(start, 3))+1, nil))
+				v := cn.bucket.vbs[vb]
+				nu := v.failover[0].UUID + 424242
+				var keep []Item
+				for _, it := range v.items {
+					if it.Seq <= r2 {
+						keep = append(keep, it)
+					}
+				}
+				v.items, v.high = keep, r2
+				v.failover = append([]FEntry{{UUID: nu, Seq: r2}}, v.failover...)
+				for i := range v.copies {
+					v.copies[i].UUID, v.copies[i].Persisted = nu, r2
+				}
+				w.jl(&journal.Ev{K: journal.KNote, Vb: vb, S: "failover", U: nu, Seq: r2})
+				for n := 2 + w.tape.Draw(4, nil); n > 0; n-- {
+					w.extWrites[vb]++
+					it := w.genItem(vb)
+					it.Key = append([]byte("nb-"), it.Key...) // the new branch's documents
+					w.cl.extWrite(cn.bucket, vb, it)
+				}
+				w.probe("rollback-on-reopen")
+				return replyVariant{name: "rollback", status: memd.StatusRollback, rbSeq: r2}, true
+			}
 			sc := s.rb[vb]
 			if sc == nil {
 				return replyVariant{}, false
@@ -487,6 +522,27 @@ func (s *scStart) MemberActions(w *World, m *Member) []Action {
 }
 
 func (s *scStart) Actions(w *World) []Action {
+	if s.prop == "C08" && s.rb2Enabled && s.rb2State == "" && w.ready1() {
+		var acts []Action
+		w.mu.Lock()
+		for _, st := range w.sortedStreams() {
+			st := st
+			m := w.members[st.conn.member-1]
+			if !st.open || s.rb[st.vb] != nil || m.closing || m.stopped || m.crashed || !m.ready {
+				continue
+			}
+			acts = append(acts, Action{ID: "failover-end|" + st.sid, W: 2, Do: func() {
+				s.rb2Vb, s.rb2State = st.vb, "armed"
+				w.fault("end:state-changed-after-a-lossy-failover", st.sid)
+				w.mu.Lock()
+				st.endStat = 2
+				w.cl.emitEnd(st)
+				w.mu.Unlock()
+			}})
+		}
+		w.mu.Unlock()
+		return acts
+	}
 	live := 0
 	for _, m := range w.members {
 		if !m.crashed && !m.stopped {
